@@ -186,7 +186,9 @@ impl<Wr: Write> Serializer for XmlSerializer<Wr> {
     fn end_elem(&mut self, name: QualName) -> io::Result<()> {
         self.namespace_stack.pop();
         self.writer.write_all(b"</")?;
-        self.qual_name(&name)?;
+        // Only write the name: a declaration made here would land in the scope of the
+        // parent, whose start tag is long written.
+        write_qual_name(&mut self.writer, &name)?;
         self.writer.write_all(b">")
     }
 
